@@ -145,6 +145,32 @@ def _s6_to_s9(program, res):
                     "although 'a non-null value' is what has to match (null *cells* are exempt), and {int, None} is normalised to {int}, so 'optional int' refuses None")
 
 
+def _s10_member_filter(program, res):
+    """a member of a set (or dict) specification may be left out only because it says nothing — it *is* None, or normalises to None.
+    A truthiness test leaves out 0, 0.0, False and '' as well, which are example values and declare int, float, bool and str"""
+    f = program.func("data_schema", "_prep_schema_specification")
+    res.analysed(f)
+    n = 0
+    for c in ast.walk(f.node):
+        tests = []
+        if isinstance(c, (ast.SetComp, ast.ListComp, ast.GeneratorExp, ast.DictComp)):
+            tests = [t for g_ in c.generators for t in g_.ifs]
+        elif isinstance(c, ast.If) and any(isinstance(x, (ast.Continue, ast.Return)) for x in ast.walk(c)):
+            tests = [c.test]
+        for t in tests:
+            n += 1
+            bare = isinstance(t, ast.Name) or (isinstance(t, ast.UnaryOp) and isinstance(t.op, ast.Not) and isinstance(t.operand, ast.Name)) \
+                or (isinstance(t, ast.Call) and dotted_name(t.func) == "bool")
+            if bare:
+                res.fail_at("C22-S10", f, "members-dropped-by-truthiness",
+                            f"_prep_schema_specification keeps a member only `if {unparse(t)}`: the example values 0, 0.0, False and '' are dropped with the Nones, "
+                            f"so {{0, ''}} normalises to the empty set and {{int, ''}} to {{int}} — a str argument is then refused although '' declared str", t)
+            else:
+                res.ok("C22-S10", f"specification members are filtered by `{unparse(t)[:40]}` (a None test, not truthiness)")
+    if n == 0:
+        res.ok("C22-S10", "no member of a specification is filtered out")
+
+
 def run(program, res, tier):
     res.rule("C22-S1", "the check switch dominates every schema raise; TypeError is what is raised")
     res.rule("C22-S2", "wrapped function's result is returned unchanged, checks before and after")
@@ -156,6 +182,8 @@ def run(program, res, tier):
     res.rule("C22-S8", "the null test yields one truth value for any cell")
     res.rule("C22-S9", "null arguments and return values are exempt like null cells")
     _s6_to_s9(program, res)
+    res.rule("C22-S10", "specification members are dropped only when they are (or normalise to) None")
+    _s10_member_filter(program, res)
     sr = program.cls("data_schema", "SchemaRaises")
     # ---- S1
     for mname in ("check_args", "check_return"):
